@@ -82,6 +82,24 @@ def runOp (cfg : Cfg) (kind : String) (args : List (List Char)) : Option (M (Lis
         let d ← peek cfg h
         let _ ← attempt (hClose h)
         pure [s2l "ok", s2l "data", h.h.name, d.toList])
+  | "creatread", [p, data] => some (do
+      -- Create, write, read the content back through the same handle, close (the handle's access
+      -- mode decides whether the read is allowed: `MFS.hread`)
+      let h ← BackupFS.create cfg p
+      let data := String.ofList data
+      match ← attempt (whenM (!data.isEmpty) (hWrite cfg h 0 data)) with
+      | .error e =>
+        let _ ← attempt (hClose h)
+        pure [s2l "err-write", s2l (errName e)]
+      | .ok () =>
+        match ← attempt (do hRead h; peek cfg h) with
+        | .error e =>
+          let _ ← attempt (hClose h)
+          pure [s2l "err-read", s2l (errName e)]
+        | .ok d =>
+          match ← attempt (hClose h) with
+          | .error e => pure [s2l "err-close", s2l (errName e)]
+          | .ok () => pure [s2l "ok", h.h.name, d.toList])
   | _, _ => (parseOp kind args).map (fun op => do
       let out ← op.exec cfg
       pure (showOut out))
